@@ -10,7 +10,8 @@ from harness.props import c03, c04
 
 
 def frag_junk_factory():
-    """Fragmented envelopes around Data that *would* satisfy pending Interests: must be rejected."""
+    """Fragmented envelopes, and envelopes with a Nack header, around Data that *would* satisfy pending Interests:
+    must be dropped without effect."""
     ws = []
     for ni, name in enumerate(pc.NAMES):
         for k in (1, 2):
@@ -18,6 +19,9 @@ def frag_junk_factory():
             ws.append(pitkit.lp_wrap(d, frag=(0, 1)).hex())
             ws.append(pitkit.lp_wrap(d, frag=(0, 2), extra=True).hex())
             ws.append(pitkit.lp_wrap(d, frag=(1, 2), odd=True).hex())      # Sequence, FragIndex, FragCount in NDNLPv2 order
+            # a Nack header names an Interest: around a Data packet it names nothing and must not deliver the Data either
+            ws.append(pitkit.lp_wrap(d, nack_reason=150).hex())
+            ws.append(pitkit.lp_wrap(d, nack_reason=0, extra=True).hex())
     def junk(rng):
         return rng.choice(ws)
     return junk
